@@ -562,6 +562,9 @@ func (o *orc) deliver(t orcTx) string {
 	if strings.HasPrefix(cls, "other:") {
 		o.env.Note("unclassified " + cls + " " + firstN(res.Log, 80))
 	}
+	if cls == "panic" {
+		o.env.Note("deliver-panic: " + firstN(res.Log, 160))
+	}
 	o.op(o.opLineTx(t, len(bz), infos), cls+"|"+o.fullObs())
 	o.env.Outcome("tx:" + cls)
 	return cls
